@@ -135,9 +135,13 @@ PROPS = {
         "level": "exploration",
         "rule": HISTORY_RULE + "Inside every write transaction, after EVERY operation, the whole visible state (recursive cursor walk, "
                 "point get/get_kv on every key and absent neighbours, seeks, kv_pairs, buckets, next_int, in every bucket) is compared with "
-                "the model. non-trivial = history with at least two such full in-transaction comparisons after mutations.",
+                "the model. Plus 'iterations under way': a cursor / seeked cursor / range / kv_pairs / buckets iterator consumes >= 1 entry, the "
+                "transaction then mutates only keys after the iterator's position (inserts, overwrites 0 B..3 pages, deletes emptying whole leaves, bucket "
+                "create/delete, writes into nested buckets), and the SAME iterator must yield exactly the model's remaining entries. "
+                "non-trivial = history with at least two such full in-transaction comparisons after mutations, or an under-way-iteration case.",
         "run": generic(sanitizers=('asan',), thorough_profiles=("verif-rel",)),
-        "floors": {"any": {"full_state_verifications": 500}},
+        "floors": {"any": {"full_state_verifications": 500, "live_mutations_ahead_of_an_open_iterator": 2000, "live_entries_compared_after_mutation": 20000,
+                           "live_buckets": 100, "live_range-from-to": 100, "live_seeked-cursor": 100}},
         "assumptions": ["a cursor is always created after the mutation it is expected to reflect"],
     },
     "C08": {
@@ -171,14 +175,15 @@ PROPS = {
         "level": "exploration",
         "rule": "cases = long runs (quick 300, thorough 5000 transactions) of {fixed-size overwrite, variable-size overwrite incl. 4-page values, "
                 "delete/reinsert, sub-bucket create/delete} x {no reopen, reopen every 25} x {no reader, reader held open for a stretch}, plus reader hand-over runs "
-                "(a reader is open at every writer begin but none for longer than one transaction) and sub-buckets holding multi-page values. After every "
+                "(a reader is open at every writer begin but none for longer than one transaction), sub-buckets holding multi-page values, and large-bucket "
+                "fill/drop runs (free list of several pages, reopen after every 1st/3rd/4th transaction). After every "
                 "commit the header's page high-water mark hwm(t) is read from the file, the independent parser measures L = max live pages and "
                 "D = max pages newly written by one commit and checks page conservation. Bounds (derived from the allocation discipline, DESIGN.md "
                 "C10): fixed-size hwm <= L+2D+8 and no second-half growth above D; variable-size hwm <= 4(L+D)+16 and second-half growth <= 10%+D; "
                 "while a reader is open at most D pages per transaction; after it closes hwm(c+k) <= hwm(c+2)+D. "
                 "non-trivial = run of >= 40 transactions in which pages below the previous high-water mark were re-allocated.",
         "run": generic(thorough_profiles=()),
-        "floors": {"any": {"transactions": 1000, "pages_allocated_below_previous_hwm(reuse)": 1000, "runs_with_periodic_reopen": 2, "runs_with_reader_held": 2, "runs_with_reader_hand_over": 2}},
+        "floors": {"any": {"transactions": 1000, "pages_allocated_below_previous_hwm(reuse)": 1000, "runs_with_periodic_reopen": 5, "runs_with_a_multi_page_free_list": 4, "runs_with_reader_held": 2, "runs_with_reader_hand_over": 2}},
         "assumptions": ["bounds are sufficient conditions for a plateau, not the tightest possible"],
     },
     "C06": {
@@ -216,7 +221,8 @@ PROPS = {
     "C02": {
         "level": "fault_enumeration",
         "rule": "faults = crash points of recorded executions. Reuse-heavy histories (small and 20-60 op transactions, bucket deletes, page reuse, "
-                "one growth workload in five) run under the LD_PRELOAD shim, which records every write (with bytes, offset, file size) and sync on the "
+                "one growth workload in five; plus directed workloads: first commits of 4-page files, a multi-page free list rewritten by small commits, "
+                "repeated file extension at page sizes 65536 and 16384) run under the LD_PRELOAD shim, which records every write (with bytes, offset, file size) and sync on the "
                 "database fd. For EVERY commit: (a) process kill = every prefix of the write sequence, the last write also cut at 512-byte boundaries; "
                 "(b) power loss = at every sync, every subset of the writes pending since the previous sync (exhaustive up to 10 writes, else all "
                 "single-missing / single-present / all-but-header + seeded subsets), sector-torn variants (prefix, suffix, random sectors) of one write, "
@@ -226,7 +232,8 @@ PROPS = {
                 "(same contents, DB::check), and every 8th takes one more commit. distinct/non-trivial = distinct image bytes.",
         "run": generic(thorough_profiles=(), env=SHIM_ENV, pre=build_shim),
         "floors": {"any": {"commits_analysed": 20, "crash_images_tested(distinct bytes)": 2000, "images_showing_previous_state": 200,
-                           "images_showing_new_state": 50, "header_word_torn_images_generated": 500, "sync_events_recorded": 20}},
+                           "images_showing_new_state": 50, "header_word_torn_images_generated": 500, "sync_events_recorded": 20, "directed_workloads": 6,
+                           "commits_that_extended_the_file": 4, "commits_with_a_multi_page_free_list": 2}},
         "assumptions": ["file size metadata is durable at the point it was observed", "a sync makes every earlier write durable; writes are torn at 512-byte sectors, the header record at 8-byte words",
                         "fallocate is invisible to the shim (raw system call); its effect is taken from the recorded file size"],
     },
@@ -263,12 +270,14 @@ PROPS = {
                 "longer than a page, non-empty free list), each also rewritten with the legacy SHA3-256 header (8 files), plus 4 files written by the "
                 "CURRENT code from the same logical history. Per golden file: the independent reader must parse it to the manifest written by the pinned "
                 "code; the current code must open it, read the manifest contents through the full read API, pass DB::check, leave the bytes untouched, "
-                "take 3 further commits (page reuse, bucket delete, reopen; independent parser + DB::check after each; newest header then in current "
-                "format), and refuse each of 7 mismatching page sizes without changing the file. Per produced file: the pinned-layout reader must parse "
+                "take 3 scripted + 48 (thorough 240) generated further transactions (page reuse, bucket create/delete, values 8 B..3 pages, rollbacks, reopens; "
+                "independent parser + DB::check after each commit; newest header then in current format), and refuse each of 7 mismatching page sizes (and, "
+                "for the small files, a sweep of ~250 other sizes incl. non-multiples of 8 next to the real one) without changing the file. Legacy-header "
+                "files with 1..5 commits (newest legacy header in slot 0 and in slot 1) get the same treatment. Per produced file: the pinned-layout reader must parse "
                 "it to the manifest contents. The space is finite and fully enumerated (exhaustive). non-trivial = every case.",
         "run": generic(thorough_profiles=("verif-rel",), pre=unpack_golden, extra_sets=("golden=" + os.path.join(ROOT, "out", "golden"),)),
         "floors": {"any": {"golden_files_checked": 8, "legacy_header_files_checked": 4, "opens_fully_verified_against_manifest": 8,
-                           "further_commits_on_golden_files": 24, "mismatching_page_sizes_refused": 48, "files_produced_by_current_code_parsed": 4,
+                           "further_commits_on_golden_files": 800, "legacy_files_with_1_to_5_commits_checked": 10, "mismatching_page_sizes_refused": 48, "files_produced_by_current_code_parsed": 4,
                            "golden_files_with_garbage_in_uninitialised_padding": 8, "small_file_page_size_mismatches_refused": 25}},
         "assumptions": ["the golden files were produced once from the pinned tree and are integrity-checked against SHA256SUMS",
                         "every file any other check produces is also parsed by the same pinned-layout reader (C05, C02, C10, C11, C16)"],
